@@ -312,7 +312,7 @@ func (g *gen) schedScenario(w *world, steps int) {
 		case k < 22:
 			sl.deliverOne(g.r.Intn(2) == 0)
 		case k < 24:
-			w.tick([]int{31, 59, 61, 120}[g.r.Intn(4)])
+			w.tick([]int{31, 50, 61, 120}[g.r.Intn(4)])
 		case k < 26:
 			sl.replay(p)
 		case k < 27:
